@@ -119,13 +119,17 @@ def _analyse(repo, fi: FunctionInfo):
                 e2 = dict(q.env)
                 e2[fi.named_params[3]] = ast.Constant(minmax)
                 # bindings made by the enclosing loop bodies before the innermost loop
+                skips = []
                 for blk, loop in ((l1.body, l2), (l2.body, l3)):
                     pe = PathEval(fi.node, e2, post=complement_norm)
                     r = pe.run([s for s in blk if s.lineno < loop.lineno])
+                    skips += [x for x in r if x.ret is not None and x.ret != RAISE]
+                    r = [x for x in r if x.ret is None] or r
                     if r:
                         e2 = dict(r[0].env)
                 inner = PathEval(fi.node, e2, post=complement_norm).run(l3.body)
-                out.append((minmax, p, q, e2, inner))
+                skips += [x for x in inner if x.ret is not None and x.ret != RAISE]
+                out.append((minmax, p, q, e2, inner, skips))
     return nest, out
 
 
@@ -141,13 +145,19 @@ def check_a(ck, repo):
         its = [ex.text(l.iter, fi, l) for l in nest]
     ck.verdict(its[0] in (f"range(0, {draws})", f"range({draws})") and its[1] in ("range(cor.shape[0])", "range(0, cor.shape[0])") and its[2] in ("range(cor.shape[1])", "range(0, cor.shape[1])") or (its[0] in (f"range(0, {draws})", f"range({draws})") and its[1].endswith(".shape[0])") and its[2].endswith(".shape[1])")), "C18.a", fi, f"loop nest {its}", "one update per (draw, row, column) of the result matrix", f"the loop nest is {its}: the cell update is not executed once per (draw, i, j)")
     seen_terms = set()
-    for minmax, top, pre, env, inner in runs:
+    for minmax, top, pre, env, inner, skips in runs:
         cor = _t(env.get("cor")) if "cor" in env else None
         label = f"[minmax={minmax}, {' and '.join(t if pol else 'not ' + t for t, pol in pre.conds) or 'always'}]"
         # zero-initialised accumulator
         z = [(k, _t(v)) for k, v in pre.named_stores.items() if k.replace(".iloc", "") == "cor[:, :]"]
         ck.verdict(len(z) == 1 and z[0][1] in ("0.0", "0"), "C18.a", fi, f"{label} accumulator {cor} zero-filled: {z}", "accumulator zero-initialised", "the accumulator does not start from zero")
         normal = [p for p in inner if p.ret is None]
+        if skips:
+            sk = skips[0]
+            where = " and ".join(t if pol else f"not ({t})" for t, pol in sk.conds) or "always"
+            ck.violated("C18.a", fi, f"{label} skipped cells ({sk.ret if isinstance(sk.ret, str) else 'return'} when {where[:120]})", f"when {where[:160]}, the loop nest leaves before the cell update ({sk.ret if isinstance(sk.ret, str) else 'return'}): for that draw the cell is neither accumulated nor entered into min/max, so the mean is still divided by the number of draws and min <= mean <= max can fail")
+        else:
+            ck.holds("C18.a", fi, f"{label} every (draw, i, j) reaches the cell update", "no continue/break/return before the update on a non-raising path")
         if not normal:
             ck.unknown("C18.a", fi, f"{label} cell update", "no path through the innermost loop body")
             continue
@@ -213,7 +223,7 @@ def check_b(ck, repo):
     kv, iv, jv = [src_of(l.target) for l in nest]
     K, I, J = kv, iv, jv
     by_kind = {}
-    for minmax, top, pre, env, inner in runs:
+    for minmax, top, pre, env, inner, skips in runs:
         if not minmax:
             continue
         cor = _t(env.get("cor")) if "cor" in env else None
@@ -246,7 +256,7 @@ def check_b(ck, repo):
     if set(by_kind) == {True, False}:
         ck.verdict(by_kind[True] == by_kind[False], "C18.b", fi, "frame vs array updates", "DataFrame and ndarray updates are the same modulo .iloc", "the DataFrame branch and the ndarray branch of the cell update differ: a frame and its array give different matrices under the same seed")
         cf = {}
-        for minmax, top, pre, env, inner in runs:
+        for minmax, top, pre, env, inner, skips in runs:
             cf[(f"hasattr({df}, 'iloc')", True) in pre.conds] = _t(env.get("cor", ""))
         ck.verdict(cf.get(True) == f"{df}.corr()" and cf.get(False) == f"numpy.corrcoef({df}, rowvar=False)", "C18.b", fi, f"containers {cf}", "square matrix with one row/column per variable (labels kept for frames)", "the result container is not a square per-variable matrix in both branches")
     else:
@@ -330,6 +340,8 @@ def run(ck):
 _C = "mlinsights/metrics/correlations.py"
 _S = "mlinsights/metrics/scoring_metrics.py"
 WITNESSES = [
+    {"name": "skip-constant-training-column", "file": _C, "rule": "C18.a", "old": "            xi_test = df_test[:, i : i + 1]\n", "new": "            xi_test = df_test[:, i : i + 1]\n            if xi_train.min() == xi_train.max():\n                continue\n"},
+    {"name": "skip-cell-when-negative", "file": _C, "rule": "C18.a", "old": "                co = max(c, 0) ** 0.5\n", "new": "                if c <= 0:\n                    continue\n                co = c ** 0.5\n"},
     {"name": "term-not-clipped", "file": _C, "rule": "C18.a", "old": "                co = max(c, 0) ** 0.5\n", "new": "                co = abs(c) ** 0.5\n"},
     {"name": "term-r2-like", "file": _C, "rule": "C18.a", "old": "                c = 1 - numpy.var(v - xj_test.ravel())\n", "new": "                c = 1 + numpy.var(v - xj_test.ravel())\n"},
     {"name": "mean-over-draws-plus-one", "file": _C, "rule": "C18.a", "old": "    return cor / draws\n", "new": "    return cor / (draws - 1)\n"},
